@@ -85,11 +85,15 @@ impl TraitCodegen<'_> {
         let params = trait_generics.trait_params();
         let where_clause = trait_generics.trait_where_clause();
 
+        // The attributes (and doc comments) of an entraited trait stay on that trait.
+        // From a function or module, only the attributes entrait re-applies are copied.
+        let is_raw_trait = matches!(fn_input_mode, FnInputMode::RawTrait(_));
         let trait_sub_attributes = self.sub_attributes.iter().filter(|attr| {
-            matches!(
-                attr,
-                SubAttribute::AsyncTrait(_) | SubAttribute::Automock(_)
-            )
+            is_raw_trait
+                || matches!(
+                    attr,
+                    SubAttribute::AsyncTrait(_) | SubAttribute::Automock(_)
+                )
         });
 
         Ok(quote_spanned! { span=>
